@@ -45,7 +45,7 @@ def program(r, non_ascii=False, max_records=5, names_non_ascii=False):
         k = r.choice(["str", "int", "bool", "dt", "uri", "qn", "lang"])
         if k == "str":
             return {"k": "str", "v": r.choice(STRINGS + (["Đông ü", "日本", "sep\u2028arator", "para\u2029graph", "nel\x85x", "e\u0301 \u212b", "mid\ufeffdle", "\ufeffstart"]
-                                               + (["日本語" * 9000] if r.random() < 0.02 else []) if non_ascii else []))}
+                                               if non_ascii else []))}
         if k == "int":
             return {"k": "int", "v": r.choice([0, 1, -5, 2 ** 40, 42, 2 ** 63, -2 ** 63 - 1, 10 ** 30, 2 ** 31])}
         if k == "bool":
@@ -69,6 +69,10 @@ def program(r, non_ascii=False, max_records=5, names_non_ascii=False):
             out.append([an, v])
         return out
 
+    if non_ascii and r.random() < 0.04:
+        # one value big enough for the whole text to cross every usual buffer size, in a script of three-byte characters
+        n[0] += 1
+        ops.append(["rec", "D", "Entity", name(["big%d" % n[0]]), {}, [[name(["tag"]), {"k": "str", "v": "日本語" * 9000}]], "new_record", "R%d" % n[0]])
     for t in targets:
         for _ in range(r.randint(1, max_records)):
             kind = r.choice(KINDS)
